@@ -37,7 +37,16 @@ func queueReplay(args []string) {
 	var f, _ = os.Create(*out)
 	var w = bufio.NewWriter(f)
 	var counts = map[string]int{}
-	for _, sc := range job.Schedules {
+	for i, sc := range job.Schedules {
+		if counts["drift"] > 20 && counts["drift"]*2 > i {
+			// the schedules are not realisable on this code (the synchronisation
+			// structure differs from the model): every further one costs a timeout
+			counts["skipped"]++
+			var b, _ = json.Marshal(qsched.Result{ID: sc.ID, Status: "skipped", Detail: "too many unrealisable schedules"})
+			w.Write(b)
+			w.WriteByte('\n')
+			continue
+		}
 		var r = qsched.RunSchedule(&job, sc, *timeout)
 		counts[r.Status]++
 		var b, _ = json.Marshal(r)
